@@ -322,9 +322,9 @@ class Run:
 
 
 def real_code_panic(stderr):
-    """If stderr is a Go panic (or a fatal concurrent-map error) whose first frame outside the Go runtime lies in the
+    """If stderr is a Go panic (or a fatal concurrent-map / mutex-misuse error) whose first frame outside the Go runtime lies in the
     repository's own packages (not in the harness), returns {msg, func, stack}; otherwise None."""
-    m = re.search(r"(?m)^(panic: .*|fatal error: concurrent map .*)$", stderr or "")
+    m = re.search(r"(?m)^(panic: .*|fatal error: concurrent map .*|fatal error: sync: .*)$", stderr or "")
     if not m:
         return None
     tail = stderr[m.start():]
